@@ -41,7 +41,10 @@ impl<F: FileFilter> DirectoryScanner<F> {
     }
 
     fn scan_without_gitignore(&self, root: &Path) -> Vec<PathBuf> {
+        // Entries in name order: reports must not depend on the order in which a directory
+        // happens to enumerate (creation history on tmpfs, hash seed on ext4)
         WalkDir::new(root)
+            .sort_by_file_name()
             .into_iter()
             // The tool's own state files are not entries of the project (as in the structure scan)
             .filter_entry(|e| {
@@ -66,6 +69,7 @@ impl<F: FileFilter> DirectoryScanner<F> {
             .require_git(false)
             .hidden(false)
             .parents(true)
+            .sort_by_file_name(std::ffi::OsStr::cmp)
             // The tool's own state files are not entries of the project (as in the structure scan)
             .filter_entry(|e| {
                 let is_dir = e.file_type().is_some_and(|ft| ft.is_dir());
@@ -100,22 +104,25 @@ impl<F: FileFilter> DirectoryScanner<F> {
     ) -> ScanResult {
         let mut state = StructureScanState::new(structure_config);
         // Use filter_entry to skip excluded directories entirely (prunes subtree)
-        let walker = WalkDir::new(root).into_iter().filter_entry(|e| {
-            // The tool's own state files are not entries of the project
-            if e.depth() > 0
-                && (is_own_state_entry(e.file_name(), e.file_type().is_dir())
-                    || (e.file_type().is_dir() && is_git_state_dir(e.path())))
-            {
-                return false;
-            }
-            if e.file_type().is_dir()
-                && let Some(cfg) = structure_config
-            {
-                // Return false to skip this directory and all its children
-                return !cfg.is_scanner_excluded(e.path(), true);
-            }
-            true
-        });
+        let walker = WalkDir::new(root)
+            .sort_by_file_name()
+            .into_iter()
+            .filter_entry(|e| {
+                // The tool's own state files are not entries of the project
+                if e.depth() > 0
+                    && (is_own_state_entry(e.file_name(), e.file_type().is_dir())
+                        || (e.file_type().is_dir() && is_git_state_dir(e.path())))
+                {
+                    return false;
+                }
+                if e.file_type().is_dir()
+                    && let Some(cfg) = structure_config
+                {
+                    // Return false to skip this directory and all its children
+                    return !cfg.is_scanner_excluded(e.path(), true);
+                }
+                true
+            });
 
         for entry in walker {
             let Ok(entry) = entry else {
@@ -153,6 +160,7 @@ impl<F: FileFilter> DirectoryScanner<F> {
             .require_git(false)
             .hidden(false)
             .parents(true)
+            .sort_by_file_name(std::ffi::OsStr::cmp)
             .filter_entry(move |e| {
                 // The tool's own state files are not entries of the project
                 let is_dir = e.file_type().is_some_and(|ft| ft.is_dir());
@@ -163,9 +171,7 @@ impl<F: FileFilter> DirectoryScanner<F> {
                     return false;
                 }
                 // Skip excluded directories entirely (prunes subtree)
-                if is_dir
-                    && let Some(ref cfg) = config_for_filter
-                {
+                if is_dir && let Some(ref cfg) = config_for_filter {
                     return !cfg.is_scanner_excluded(e.path(), true);
                 }
                 true
